@@ -151,7 +151,9 @@ func checkC14(c *Ctx, r *Result, tier string) {
 	// the string runtime: Eval methods of runtime components which call the parser
 	var targets []*ssa.Function
 	for _, fn := range c.Implementations(rtIface, "Eval") {
-		if len(callSites(fn, func(name string, _ ssa.CallInstruction) bool { return strings.HasSuffix(name, "parser.ParseWithRuntime") || strings.HasSuffix(name, "parser.Parse") })) > 0 {
+		if len(callSites(fn, func(name string, _ ssa.CallInstruction) bool {
+			return strings.HasSuffix(name, "parser.ParseWithRuntime") || strings.HasSuffix(name, "parser.Parse")
+		})) > 0 {
 			// the import runtime parses resolved files (C17), not literal text
 			if len(callSites(fn, func(_ string, ci ssa.CallInstruction) bool {
 				return ci.Common().IsInvoke() && ci.Common().Method.Name() == "Resolve"
@@ -235,7 +237,9 @@ func checkC14(c *Ctx, r *Result, tier string) {
 		r.Floor("R14a-sinks:"+key, nSinks, 2)
 
 		// R14c
-		for i, p := range callSites(fn, func(name string, _ ssa.CallInstruction) bool { return strings.HasSuffix(name, "parser.ParseWithRuntime") }) {
+		for i, p := range callSites(fn, func(name string, _ ssa.CallInstruction) bool {
+			return strings.HasSuffix(name, "parser.ParseWithRuntime")
+		}) {
 			site := fmt.Sprintf("%s#parse#%d", key, i)
 			pos := c.Pos(c.InstrPos(p))
 			ok := false
